@@ -733,7 +733,7 @@ def as_nat(l, t):
 
 
 def is_int(ty):
-    return ty in INT_TYPES or ty in SMALL or ty in ("Wad", "int")
+    return ty in INT_TYPES or ty in SMALL or ty in ("Wad", "int", "u128")
 
 
 class Gen:
@@ -981,6 +981,8 @@ class Gen:
             l, t = self.pure(e[1], env)
             if e[2] in ("i128", "I256") and (t in SMALL or t in ("int", "i128")):
                 return (l, e[2])
+            if e[2] == "u128" and t in ("i128", "int"):
+                return (f"(i128_as_u128 {l})", "u128")     # two's complement reinterpretation
             raise Unsupported(f"cast of {t} as {e[2]}")
         if e[0] == "field" and e[2] != "0":
             l, t = self.pure(e[1], env)
@@ -1333,6 +1335,9 @@ class Gen:
                 return f"Comp.ok {wrap('()')}"
             wrap = getattr(self, "ret_wrap", None) or (lambda x: x)
             return self.tr(e[1], env, lambda a, t: f"Comp.ok {wrap(as_nat(a, t) if ret in NATTY else a)}", ret)
+        if kind == "cast":
+            # the operand is computed (it may panic): evaluate it, then convert the atom
+            return self.tr(e[1], env, lambda a, t: k(*self.pure(("cast", ("var", "$c"), e[2]), dict(env, **{"$c": (a, t)}))), ret)
         if kind == "field":
             return self.tr(e[1], env, lambda a, t: k(*self.pure(("field", ("var", "$f"), e[2]), dict(env, **{"$f": (a, t)}))), ret)
         if kind == "try":
